@@ -541,6 +541,20 @@ pub fn run() -> i32 {
                 }
             }
         }
+        for which in 0..2u8 {
+            for form in 0..2u8 {
+                for count in 1..=4u8 {
+                    for perm in 0..24u8 {
+                        crate::sym::load(vec![vec![which], vec![form], vec![count], vec![perm]]);
+                        n += 1;
+                        if std::panic::catch_unwind(|| crate::node::c09_min_max()).is_err() {
+                            c11_bad += 1;
+                            eprintln!("SELFTEST-FAIL: c09_min_max: which={} form={} count={} perm={}", which, form, count, perm);
+                        }
+                    }
+                }
+            }
+        }
         for code in 0..=5u8 {
             crate::sym::load(vec![vec![code]]);
             n += 1;
